@@ -48,6 +48,12 @@ structure St where
   riters : Std.HashMap Nat (Option RIter) := {}    -- none = NULL iterator
   mergers : Std.HashMap Nat (String × Bool × List (List Entry)) := {}   -- merge spec, dupsort, source contents
   miters : Std.HashMap Nat (Option MIter × String × Bool) := {}
+  sorters : Std.HashMap Nat (Sorter × String) := {}
+  fsSt : Fs.St := {}
+  fsTables : Std.HashMap Nat (List Entry) := {}
+  fsHandles : Std.HashMap Nat Nat := {}
+  fsIters : Std.HashMap Nat Nat := {}
+  fixF3 : Bool := true
   fixF2 : Bool := true
   fixF8 : Bool := true
   fixF1 : Bool := true
@@ -168,6 +174,178 @@ def stepMerger (s : St) (line : String) : Option (St × String) :=
   | ["m.close", iid] => iid.toNat?.map fun i => ({ s with miters := s.miters.erase i }, "ok")
   | _ => none
 
+def mergeOfSpec (mg : String) : Option (Bytes → Bytes → Bytes → Option Bytes) :=
+  if mg == "union" then some (mergeUnion none)
+  else if mg.startsWith "fail:" then some (mergeUnion (unhex (mg.drop 5).toString))
+  else none
+
+def stepSorter (s : St) (line : String) : Option (St × String) :=
+  match line.trimAscii.toString.splitOn " " with
+  | "s.new" :: id :: args =>
+    id.toNat?.map fun i =>
+      let mg := (kv args "merge").getD "none"
+      let cfg : SCfg := { maxMemory := kvNat args "mem" 1073741824, minMemory := kvNat args "minmem" 10485760,
+                          merge := mergeOfSpec mg, sortFn := fun l => l.mergeSort (fun a b => bcmp a.key b.key != .gt),
+                          entryOverhead := kvNat args "eo" 8, pid := kvNat args "pid" 0, tmpDir := "DIR" }
+      ({ s with sorters := s.sorters.insert i ({ cfg }, mg) }, "ok")
+  | ["s.add", id, k, v] =>
+    match id.toNat?, unhex k, unhex v with
+    | some i, some k, some v => match s.sorters[i]? with
+      | some (so, mg) =>
+        let r := so.add k v
+        if r.2.aborted then some ({ s with sorters := s.sorters.insert i (r.2, mg) }, "abort")
+        else some ({ s with sorters := s.sorters.insert i (r.2, mg) }, if r.1 == .success then "ok" else "fail")
+      | none => none
+    | _, _, _ => none
+  | ["s.iter", id, iid] =>
+    match id.toNat?, iid.toNat? with
+    | some i, some j => match s.sorters[i]? with
+      | some (so, mg) =>
+        let r := so.iter (mkMCfg s mg false)
+        let s' := { s with sorters := s.sorters.insert i (r.2, mg) }
+        if r.2.aborted then some (s', "abort") else
+        match r.1 with
+        | some m => some ({ s' with miters := s'.miters.insert j (some m, mg, false) }, "ok")
+        | none => some ({ s' with miters := s'.miters.insert j (none, mg, false) }, "null")
+      | none => none
+    | _, _ => none
+  | ["s.write", id, wid] =>
+    match id.toNat?, wid.toNat? with
+    | some i, some w => match s.sorters[i]?, s.writers[w]? with
+      | some (so, mg), some (wr, pre) =>
+        if so.iterating then some (s, "fail") else
+        let mc := mkMCfg s mg false
+        let r := so.iter mc
+        let s1 := { s with sorters := s.sorters.insert i (r.2, mg) }
+        if r.2.aborted then some (s1, "abort") else
+        match r.1 with
+        | none => some (s1, "fail")
+        | some m =>
+          -- mtbl_sorter_write: drain the iterator into the writer, stop at the first refused add
+          let rec go (fuel : Nat) (m : MIter) (wr : W) (adds : List Entry) (res : String) : W × List Entry × String :=
+            match fuel with
+            | 0 => (wr, adds, res)
+            | fuel + 1 =>
+              match mergerNext mc m with
+              | (.ok k v, m') =>
+                let a := wr.add k v
+                if a.1 == .success then go fuel m' a.2 ({ key := k, val := v } :: adds) res
+                else (a.2, { key := k, val := v } :: adds, "fail")
+              | (.fail, _) => (wr, adds, res)
+          let total := (r.2.chunks.map List.length).sum + 1
+          let out := go total m wr ((s1.wadds[w]?).getD []) "ok"
+          some ({ s1 with writers := s1.writers.insert w (out.1, pre), wadds := s1.wadds.insert w out.2.1 }, out.2.2)
+      | _, _ => none
+    | _, _ => none
+  | ["s.spills", id] =>
+    match id.toNat? with
+    | some i => match s.sorters[i]? with
+      | some (so, _) => some (s, "spills " ++ toString so.spills ++ " tmpl=" ++
+          (if so.cfg.template == "DIR/.mtbl." ++ toString so.cfg.pid ++ ".XXXXXX" then "DIR/.mtbl.PID.XXXXXX" else so.cfg.template) ++ " leftover=0")
+      | none => none
+    | none => none
+  | ["s.destroy", id] => id.toNat?.map fun i => ({ s with sorters := s.sorters.erase i }, "ok")
+  | _ => none
+
+def isSubstr (needle hay : String) : Bool :=
+  let n := needle.toList; let h := hay.toList
+  (List.range (h.length + 1 - n.length)).any fun i => (h.drop i).take n.length == n
+
+def fsName (a : String) : String := if a.startsWith "/" then (a.drop 1).toString else a
+
+def fsCfg (s : St) (args : List String) : Fs.HCfg :=
+  let iv := (kv args "interval").getD "60"
+  let namef := (kv args "namef").getD "-"
+  let tabs := s.fsTables
+  { interval := if iv == "never" then Fs.NEVER else iv.toNat?.getD 60,
+    nameFilter := fun n => namef == "-" || isSubstr namef n,
+    tableFilter := match kv args "minent" with
+      | some m => fun tid => decide (((tabs[tid]?).getD []).length ≥ m.toNat?.getD 0)
+      | none => fun _ => true }
+
+def stepFs (s : St) (line : String) : Option (St × String) :=
+  match line.trimAscii.toString.splitOn " " with
+  | ["fs.begin"] => some ({ s with fsSt := {}, fsTables := {}, fsHandles := {}, fsIters := {} }, "ok")
+  | ["fs.end"] => some (s, "ok")
+  | "fs.table" :: tid :: rest =>
+    match tid.toNat?, parsePairs rest with
+    | some t, some es => some ({ s with fsTables := s.fsTables.insert t es }, "ok")
+    | _, _ => none
+  | ["fs.file", name, what] =>
+    let kind := if what == "nt" then Fs.FileKind.notTable else Fs.FileKind.table (what.toNat?.getD 0)
+    some ({ s with fsSt := Fs.step s.fixF3 s.fsSt (.putFile name kind) }, "ok")
+  | ["fs.rm", name] => some ({ s with fsSt := Fs.step s.fixF3 s.fsSt (.rmFile name) }, "ok")
+  | "fs.set" :: names => some ({ s with fsSt := Fs.step s.fixF3 s.fsSt (.editSetfile (names.map fsName)) }, "ok")
+  | ["fs.tick", n] => n.toNat?.map fun k => ({ s with fsSt := Fs.step s.fixF3 s.fsSt (.advance k) }, "ok")
+  | "fs.init" :: hid :: args =>
+    hid.toNat?.map fun h =>
+      ({ s with fsSt := { s.fsSt with handles := [{ cfg := fsCfg s args }], sh := {} }, fsHandles := (({} : Std.HashMap Nat Nat).insert h 0) }, "ok")
+  | "fs.dup" :: _src :: hid :: args =>
+    hid.toNat?.map fun h =>
+      let idx := s.fsSt.handles.length
+      ({ s with fsSt := Fs.step s.fixF3 s.fsSt (.dup (fsCfg s args)), fsHandles := s.fsHandles.insert h idx }, "ok")
+  | ["fs.reload", hid] =>
+    match hid.toNat?.bind (s.fsHandles[·]?) with
+    | some i => some ({ s with fsSt := Fs.step s.fixF3 s.fsSt (.reload i) }, "ok")
+    | none => none
+  | ["fs.now", hid] =>
+    match hid.toNat?.bind (s.fsHandles[·]?) with
+    | some i => some ({ s with fsSt := Fs.step s.fixF3 s.fsSt (.reloadNow i) }, "ok")
+    | none => none
+  | "fs.it" :: hid :: iid :: kargs =>
+    match hid.toNat?.bind (s.fsHandles[·]?), iid.toNat?, parseKind kargs with
+    | some i, some j, some (kind, seekTo) =>
+      let st := Fs.step s.fixF3 s.fsSt (.openIter i)
+      let idx := st.iters.length - 1
+      match st.iters[idx]? with
+      | none => none
+      | some it =>
+        if st.uaf then some ({ s with fsSt := st }, "uaf") else
+        let tabs := it.readers.map fun r => match Fs.tableOf st.sh.loaded r with
+          | some tid => (s.fsTables[tid]?).getD []
+          | none => []
+        let m := mergerIter (mkMCfg s "union" false) tabs kind (seekTo.getD [])
+        some ({ s with fsSt := st, fsIters := s.fsIters.insert j idx, miters := s.miters.insert j (m, "union", false) }, "ok")
+    | _, _, _ => none
+  | ["fs.next", iid] =>
+    match iid.toNat? with
+    | some j => match s.fsIters[j]?, s.miters[j]? with
+      | some idx, some (m?, mg, ds) =>
+        let st := Fs.step s.fixF3 s.fsSt (.useIter idx)
+        if st.uaf then some ({ s with fsSt := st }, "uaf") else
+        match m? with
+        | none => some ({ s with fsSt := st }, "fail")
+        | some m =>
+          let r := mergerNext (mkMCfg s mg ds) m
+          let s' := { s with fsSt := st, miters := s.miters.insert j (some r.2, mg, ds) }
+          match r.1 with
+          | .ok k v => some (s', "ent " ++ hex k ++ " " ++ hex v)
+          | .fail => some (s', "fail")
+      | _, _ => none
+    | none => none
+  | ["fs.seek", iid, k] =>
+    match iid.toNat?, unhex k with
+    | some j, some k => match s.fsIters[j]?, s.miters[j]? with
+      | some idx, some (m?, mg, ds) =>
+        let st := Fs.step s.fixF3 s.fsSt (.useIter idx)
+        if st.uaf then some ({ s with fsSt := st }, "uaf") else
+        match m? with
+        | none => some ({ s with fsSt := st }, "fail")
+        | some m => some ({ s with fsSt := st, miters := s.miters.insert j (some (mergerSeek (mkMCfg s mg ds) m k), mg, ds) }, "ok")
+      | _, _ => none
+    | _, _ => none
+  | ["fs.close", iid] =>
+    match iid.toNat? with
+    | some j => match s.fsIters[j]? with
+      | some idx => some ({ s with fsSt := Fs.step s.fixF3 s.fsSt (.closeIter idx), miters := s.miters.erase j }, "ok")
+      | none => none
+    | none => none
+  | ["fs.destroy", hid] =>
+    match hid.toNat?.bind (s.fsHandles[·]?) with
+    | some i => some ({ s with fsSt := Fs.step s.fixF3 s.fsSt (.destroy i) }, "ok")
+    | none => none
+  | _ => none
+
 def stepMore (s : St) (line : String) : St × String :=
   match line.trimAscii.toString.splitOn " " with
   | "r.it" :: rid :: iid :: kargs =>
@@ -227,12 +405,16 @@ def stepMore (s : St) (line : String) : St × String :=
     match iid.toNat? with
     | some i => ({ s with riters := s.riters.erase i }, "ok")
     | none => (s, "bad-op")
-  | ["reset"] => ({ fixF1 := s.fixF1, fixF9 := s.fixF9, fixF2 := s.fixF2, fixF8 := s.fixF8 }, "ok")
+  | ["reset"] => ({ fixF1 := s.fixF1, fixF9 := s.fixF9, fixF2 := s.fixF2, fixF8 := s.fixF8, fixF3 := s.fixF3 }, "ok")
   | _ => match stepCodec line with
     | some r => (s, r)
     | none => match stepMerger s line with
       | some r => r
-      | none => (s, "bad-op")
+      | none => match stepSorter s line with
+        | some r => r
+        | none => match stepFs s line with
+          | some r => r
+          | none => (s, "bad-op")
 
 def step (s : St) (line : String) : St × String :=
   match line.trimAscii.toString.splitOn " " with
@@ -240,6 +422,7 @@ def step (s : St) (line : String) : St × String :=
   | ["cfg", "fixF9", v] => ({ s with fixF9 := v == "1" }, "ok")
   | ["cfg", "fixF2", v] => ({ s with fixF2 := v == "1" }, "ok")
   | ["cfg", "fixF8", v] => ({ s with fixF8 := v == "1" }, "ok")
+  | ["cfg", "fixF3", v] => ({ s with fixF3 := v == "1" }, "ok")
   | ["blob", id, h] =>
     match id.toNat?, unhex h with
     | some i, some b => ({ s with blobs := s.blobs.insert i b }, "ok")
